@@ -32,7 +32,7 @@ class VariableBoundMinPropagator(VariableBoundPropagator):
 #        print("  i=" + str(i))
 
         must_propagate = False
-        if i < len(range_l):
+        if len(range_l) > 0 and i < len(range_l):
             if i > 0:
                 # Need to trim off full range elements
                 must_propagate = True
